@@ -73,6 +73,12 @@ def gen_case(r, k, same=None, long_=False):
         nt *= v["nx"]
     c["scaled"] = r.random() < 0.25
     c["sfac"] = [r.choice([0.0, 0.25, 0.5, 0.5, 1.0, 2.0, -1.0]) for _ in range(nt)] if c["scaled"] else []
+    # inputPrefix: counts and gradients read from .count/.grad files before the first step
+    if r.random() < 0.25:
+        icnt = [r.choice([0, 0, 1, 2, 3, 5, 8]) for _ in range(nt)]
+        c["input"] = {"cnt": icnt, "grad": [(V.dyadic(r, -4, 4, bits=2) if icnt[a] > 0 else 0.0) for a in range(nt) for _ in range(nd)]}
+    # applyBias switched at run time (cv bias a set apply_force 0|1) before some steps
+    c["toggle"] = r.random() < 0.2
     nsteps = r.randint(60, 160) if long_ else r.randint(6, 26)
     steps = []
     prev = None
@@ -108,8 +114,41 @@ def gen_case(r, k, same=None, long_=False):
                 es.append(V.dyadic(r, -8, 8, bits=3))
         steps.append({"z": zs, "e": es, "boundary": boundary})
         prev = zs
+    if c["toggle"]:
+        cur = c["apply"]
+        for st in steps[1:]:
+            if r.random() < 0.25:
+                cur = not cur
+            st["apply"] = cur
     c["steps"] = steps
     return c
+
+
+def apply_at(c, st):
+    """applyBias at a step: the configured value, or what the last `cv bias a set apply_force` left"""
+    return st.get("apply", c["apply"])
+
+
+def cv_applies(c, st, d):
+    """f_cv_apply_force of variable d at a step: some bias applies forces to it"""
+    return apply_at(c, st) or c["vars"][d]["hk"] is not None
+
+
+def input_grid_files(c):
+    """<prefix>.count and <prefix>.grad in the multicolumn format (inputPrefix)"""
+    vs, nd = c["vars"], len(c["vars"])
+    hdr = ["# %d" % nd] + ["# %s %s %d %d" % (fmt(v["lower"]), fmt(v["w"]), v["nx"], 1 if v["periodic"] else 0) for v in vs] + [""]
+    lc, lg = list(hdr), list(hdr)
+    ix = [0] * nd
+    for a in range(len(c["input"]["cnt"])):
+        rem = a
+        for d in range(nd - 1, -1, -1):
+            ix[d] = rem % vs[d]["nx"]
+            rem //= vs[d]["nx"]
+        xs = " ".join(fmt(v["lower"] + (i + 0.5) * v["w"]) for v, i in zip(vs, ix))
+        lc.append(xs + " %d" % c["input"]["cnt"][a])
+        lg.append(xs + " " + " ".join(fmt(g) for g in c["input"]["grad"][a * nd:(a + 1) * nd]))
+    return "\n".join(lc) + "\n", "\n".join(lg) + "\n"
 
 
 def colvar_value(v, z):
@@ -220,6 +259,8 @@ def scenario(c):
         abf += ["  hideJacobian on"]
     if c.get("scaled"):
         abf += ["  scaledBiasingForce on", "  scaledBiasingForceFactorsGrid %s.sf" % c["id"]]
+    if c.get("input"):
+        abf += ["  inputPrefix %s_in" % c["id"]]
     abf += ["}"]
     harm = []
     hv = [d for d, v in enumerate(c["vars"]) if v["hk"] is not None]
@@ -229,6 +270,7 @@ def scenario(c):
                  "  forceConstant %s" % fmt(v["hk"]), "}"]
     L += (abf + harm) if c["abf_first"] else (harm + abf)
     L += ["EOF", "show cv 0 energy 0 bias 0 atomf 0"]
+    cur_apply = c["apply"]
     for st in c["steps"]:
         for d in range(nd):
             a, a0 = amap[d]
@@ -237,6 +279,9 @@ def scenario(c):
             if a0 is not None:     # the partner atom of a distance stays at the origin and feels the opposite force
                 L.append("pos %d 0 0 0" % a0)
                 L.append("eforce %d 0 0 %s" % (a0, V.hexf(-st["e"][d])))
+        if apply_at(c, st) != cur_apply:
+            cur_apply = apply_at(c, st)
+            L.append("script cv bias a set apply_force %d" % (1 if cur_apply else 0))
         if st["boundary"]:
             L.append("runboundary")
         L.append("step")
@@ -252,7 +297,7 @@ def model_case(c):
     parts = ["ABF", str(nd)]
     parts += [V.hexf(v["lower"]) for v in vs] + [V.hexf(v["w"]) for v in vs] + [str(v["nx"]) for v in vs]
     parts += ["1" if v["periodic"] else "0" for v in vs]
-    parts += [str(c["full"]), str(c["min"]), str(int(c["apply"])), str(int(c["update"])), str(int(c["cap"]))]
+    parts += [str(c["full"]), str(c["min"]), str(int(c["update"])), str(int(c["cap"]))]
     parts += [V.hexf(m) for m in c["maxf"]]
     parts += [str(int(c["szd"])), str(int(c["same"]))] + [str(int(v["sub"])) for v in vs]
     parts += [str(int(c["hideJ"]))]
@@ -261,13 +306,17 @@ def model_case(c):
     for v in vs:
         nt *= v["nx"]
     parts += [str(int(bool(c.get("scaled"))))] + [V.hexf(x) for x in (c["sfac"] if c.get("scaled") else [1.0] * nt)]
+    if c.get("input"):
+        parts += ["1"] + [str(x) for x in c["input"]["cnt"]] + [V.hexf(g) for g in c["input"]["grad"]]
+    else:
+        parts += ["0"]
     parts += [str(len(c["steps"]))]
     for st in c["steps"]:
         parts += [V.hexf(colvar_value(v, z)) for v, z in zip(vs, st["z"])]
         parts += [V.hexf(e) for e in st["e"]]
         parts += [V.hexf(o) for o in other_forces(c, st)]
         parts += [V.hexf(j) for j in jac_forces(c, st)]
-        parts += [str(int(st["boundary"]))]
+        parts += [str(int(st["boundary"])), str(int(apply_at(c, st)))]
     return " ".join(parts)
 
 
@@ -418,7 +467,7 @@ def expected_abf_force(c, st, cnt, sm):
     """applied ABF force from the implementation's own arrays (exact)"""
     nd = len(c["vars"])
     ix = bin_of(c, st)
-    if not c["apply"] or not in_grid(c, ix):
+    if not apply_at(c, st) or not in_grid(c, ix):
         return [Fr(0)] * nd
     a = address(c, ix)
     N = cnt[a]
@@ -507,7 +556,8 @@ def oracle(c, impl_steps, state=None):
                         % (t, f["cf"], [float(x) for x in exp])))
             break
         o = other_forces(c, st)
-        jj = [(j if c["hideJ"] else 0.0) for j in jac_forces(c, st)]
+        # the hidden Jacobian force is compensated only by a variable that applies forces
+        jj = [(j if c["hideJ"] and cv_applies(c, st, d) else 0.0) for d, j in enumerate(jac_forces(c, st))]
         sf = scale_factor(c, st)
         if not all(close(Fr(a) * sf + Fr(b) - Fr(j), g) for a, b, j, g in zip(f["cf"], o, jj, f["af"])):
             bad.append(("oracle:af", "step %d: force applied to the variables %s is not ABF force %s * scaling factor %s + restraint force %s - hidden Jacobian force %s" % (t, f["af"], f["cf"], float(sf), o, jj)))
@@ -516,6 +566,10 @@ def oracle(c, impl_steps, state=None):
     smp = expected_samples(c)
     cnt = [0] * nt
     sm = [Fr(0)] * (nt * nd)
+    if c.get("input"):
+        # inputPrefix: count read, and gradient read * count read
+        cnt = list(c["input"]["cnt"])
+        sm = [Fr(c["input"]["grad"][i]) * cnt[i // nd] for i in range(nt * nd)]
     for a, F, t in smp:
         cnt[a] += 1
         for d in range(nd):
@@ -533,7 +587,10 @@ def oracle(c, impl_steps, state=None):
         hj = [d for d in jvar if c["same"] and not c["vars"][d]["sub"]]
         # hideJacobian, lagged forces, no bias applies a force to the variable (applyBias off, no restraint): the
         # compensating force -fj never reaches the atoms but fj is added to / f_old subtracted from the measured force
-        hn = [d for d in jvar if not c["same"] and not c["apply"] and c["vars"][d]["hk"] is None]
+        hn = [d for d in jvar if not c["same"] and not c["apply"] and not c.get("toggle") and c["vars"][d]["hk"] is None]
+        # hideJacobian, lagged forces, applyBias switched at run time on a distance variable without another bias:
+        # collect_cvc_total_forces looks at f_cv_apply_force of the current step for the force of the previous one
+        hs = [d for d in jvar if not c["same"] and c.get("toggle") and c["vars"][d]["hk"] is None]
         if zt:
             sig, why = "sample:subtractAppliedForce-zero-total-force", " (measured total force exactly zero at (step,variable) %s)" % zt[:3]
         elif vz:
@@ -542,7 +599,9 @@ def oracle(c, impl_steps, state=None):
             sig, why = "sample:hideJacobian-same-step-adds-jacobian", " (hideJacobian, same-step forces, distance variable(s) %s)" % hj
         elif hn and len(hn) == len(dbad):
             sig, why = "sample:hideJacobian-without-applied-force", " (hideJacobian, lagged forces, no bias applies a force to distance variable(s) %s)" % hn
-        elif c.get("scaled") and not c["same"] and c["apply"] and all(not c["vars"][d]["sub"] for d in dbad):
+        elif hs and len(hs) == len(dbad):
+            sig, why = "sample:hideJacobian-applyBias-switched", " (hideJacobian, lagged forces, applyBias switched at run time, distance variable(s) %s)" % hs
+        elif c.get("scaled") and not c["same"] and (c["apply"] or c.get("toggle")) and all(not c["vars"][d]["sub"] for d in dbad):
             sig, why = "sample:scaledBiasingForce-unscaled-force-subtracted", " (scaledBiasingForce on, lagged forces)"
         else:
             sig, why = "oracle:sum", ""
@@ -684,7 +743,7 @@ def judge_hidej_same(c, steps):
 
 
 def witness_hidej_noforce():
-    """W5 (known defect): hideJacobian, lagged forces, applyBias off, no other bias, distance variable: the samples must be
+    """W5 (repaired in fix-C04-2): hideJacobian, lagged forces, applyBias off, no other bias, distance variable: the samples must be
     the engine force 1 (Jacobian hidden); the implementation records 1 + fj."""
     v = _v1(kind="dist", onesite=False, lower=1.0, upper=3.0)
     return _c1("W5", v, [(1.5, 1.0, False)] * 3, same=False, apply=False, hideJ=True, T=1000.0)
@@ -715,6 +774,57 @@ def judge_scaled(c, steps):
     return None
 
 
+def witness_toggle():
+    """E7: applyBias switched off before step 2 and on again before step 4, lagged forces, minSamples 0, fullSamples 1, engine
+    force 2 at every step: five samples of 2 (a stale previous_colvar_forces would be subtracted at step 3)."""
+    c = _c1("W8", _v1(), [(0.5, 2.0, False)] * 6, full=1, min=0, apply=True, toggle=True)
+    for t, a in enumerate([True, True, False, False, True, True]):
+        c["steps"][t]["apply"] = a
+    return c
+
+
+def judge_toggle(c, steps):
+    got, n = steps[-1]["sum"][0], steps[-1]["cnt"][0]
+    if n != 5 or got != -10.0:
+        return ("applyBias on, switched off before step 2 (cv bias a set apply_force 0) and on again before step 4, lagged total forces, engine force 2 at every "
+                "step: five samples of 2, stored sum -10; the implementation stores %s with count %s (after the switch the bias keeps subtracting the last "
+                "force it applied: previous_colvar_forces is not reset)" % (got, n))
+    return None
+
+
+def witness_hidej_switched():
+    """W7 (known defect): hideJacobian, lagged forces, distance variable, applyBias on at step 0 and switched off before step 1."""
+    v = _v1(kind="dist", onesite=False, lower=1.0, upper=3.0)
+    c = _c1("W7", v, [(1.5, 1.0, False)] * 3, same=False, apply=True, hideJ=True, T=1000.0, toggle=True)
+    for t, a in enumerate([True, False, False]):
+        c["steps"][t]["apply"] = a
+    return c
+
+
+def judge_hidej_switched(c, steps):
+    got, n = steps[-1]["sum"][0], steps[-1]["cnt"][0]
+    fj = jac_force(c, c["vars"][0], 1.5)
+    if n != 2 or not close(got, -2.0):
+        return ("hideJacobian on, lagged total forces, distance r = 1.5 at T = 1000 K (fj = %s), engine force 1, applyBias on at step 0 and switched off before "
+                "step 1: the force measured for step 0 contains the compensation -fj, the two samples must be 1 (stored sum -2); the implementation stores %s with "
+                "count %s: collect_cvc_total_forces decides from f_cv_apply_force at step 1 whether -fj is contained in the force of step 0" % (fj, got, n))
+    return None
+
+
+def witness_input():
+    """inputPrefix: counts (3, 0) and gradient (-1.5, 0) read from files, then two samples of 2 in bin 0 and one of 1 in bin 1 (same-step)."""
+    return _c1("W9", _v1(), [(0.5, 0.0, False), (0.5, 2.0, False), (0.5, 2.0, False), (1.5, 1.0, False)], same=True, apply=True,
+               full=4, min=0, input={"cnt": [3, 0], "grad": [-1.5, 0.0]})
+
+
+def judge_input(c, steps):
+    last = steps[-1]
+    if last["cnt"] != [5, 1] or last["sum"] != [-8.5, -1.0]:
+        return ("inputPrefix with counts (3, 0) and gradients (-1.5, 0), then samples 2, 2 in bin 0 and 1 in bin 1: counts must be (5, 1) and sums "
+                "(-1.5*3 - 4, -1) = (-8.5, -1); the implementation has counts %s and sums %s" % (last["cnt"], last["sum"]))
+    return None
+
+
 WITNESSES = ((witness_zero_total, "sample:subtractAppliedForce-zero-total-force", judge_zero_total),
              (witness_zero_total_abf, "sample:subtractAppliedForce-zero-total-force", judge_zero_total_abf),
              (witness_value_zero, "sample:force-dropped-at-value-zero", judge_value_zero),
@@ -722,7 +832,10 @@ WITNESSES = ((witness_zero_total, "sample:subtractAppliedForce-zero-total-force"
              (witness_zero_mean_ramp, "force:periodic-zero-mean-during-ramp", judge_zero_mean_ramp),
              (witness_hidej_same, "sample:hideJacobian-same-step-adds-jacobian", judge_hidej_same),
              (witness_hidej_noforce, "sample:hideJacobian-without-applied-force", judge_hidej_noforce),
-             (witness_scaled, "sample:scaledBiasingForce-unscaled-force-subtracted", judge_scaled))
+             (witness_scaled, "sample:scaledBiasingForce-unscaled-force-subtracted", judge_scaled),
+             (witness_toggle, "sample:applyBias-switched-stale-applied-force", judge_toggle),
+             (witness_hidej_switched, "sample:hideJacobian-applyBias-switched", judge_hidej_switched),
+             (witness_input, "sample:inputPrefix-data", judge_input))
 
 
 # ------------------------------------------------------------------------------- running
@@ -733,6 +846,12 @@ def run_batch(exe, cases, d, tag):
         if c.get("scaled"):
             with open(os.path.join(d, "%s.sf" % c["id"]), "w") as f:
                 f.write(scaling_grid_file(c))
+        if c.get("input"):
+            tc, tg = input_grid_files(c)
+            with open(os.path.join(d, "%s_in.count" % c["id"]), "w") as f:
+                f.write(tc)
+            with open(os.path.join(d, "%s_in.grad" % c["id"]), "w") as f:
+                f.write(tg)
     sc = os.path.join(d, "batch_%s.scn" % tag)
     with open(sc, "w") as f:
         f.write("\n".join(lines) + "\n")
@@ -862,6 +981,8 @@ def check(run):
         run.dist("distance_vars_with_jacobian", sum(1 for v in c["vars"] if kind(v) == "dist" and c.get("T", 0.0) != 0.0))
         run.dist("hideJacobian", 1 if c["hideJ"] else 0)
         run.dist("scaledBiasingForce", 1 if c.get("scaled") else 0)
+        run.dist("inputPrefix", 1 if c.get("input") else 0)
+        run.dist("applyBias_switched_at_run_time", 1 if c.get("toggle") else 0)
         if im.get("state") is not None:
             nstate += 1
         # property oracle on the implementation alone
